@@ -363,9 +363,13 @@ def plan(tier, seed):
                     if rep % 6 == 4:
                         c_['valdtype'] = ['int64', 'bool', 'int32'][(i // 6) % 3]
                     if rep % 6 == 5 or (rep % 6 == 2 and not sub):
-                        c_['geo'] = ['int', 'jitter', 'nano', 'offset', 'negative', 'wild', 'int'][(i // 6) % 7]
+                        c_['geo'] = ['int', 'jitter', 'thinend', 'offset', 'negative', 'wild', 'nano', 'thinend'][(i // 6) % 8]
                     cases.append(c_)
                     i += 1
+        if 'pol' in AXKIND[cls] or AXKIND[cls][0] == 'rad':
+            # wall-refined grids next to the axis r = 0 / the poles theta = 0, pi (metric factors r, sin(theta) almost vanish there)
+            for rep in range(12 if tier == 'quick' else 150):
+                cases.append({'cls': cls, 'periodic': [], 'style': 'both', 'seed': [seed, 3, ci, 900000 + rep], 'nmax': 4 if nd < 3 else 3, 'geo': 'thinend'})
         step = 25 if nd == 3 else 50
         for j in range(0, len(cases), step):
             chunks.append(cases[j:j + step])
@@ -379,7 +383,7 @@ def floors(agg, tier):
             out.append('cases:%s < 6' % cls)
     for k, need in (('op:constructor', 100), ('op:apply_BCs', 100), ('op:original-after-copy-edit', 100), ('op:apply_BCs-after-untracked-edit', 100), ('op:solvePDE', 80), ('op:solveExplicitPDE', 80),
                     ('robin_faces', 1000), ('wrap_faces', 200), ('rows-robin', 500), ('scale_invariance', 80), ('plotprofile_faces', 500), ('interior_consistency', 150),
-                    ('valdtype:int64', 10), ('valdtype:bool', 10), ('geo:int', 10), ('geo:jitter', 8), ('geo:nano', 8), ('no_precalc_round1', 80), ('no_precalc_round2', 40), ('no_precalc_round3', 40), ('side_edit:left', 5), ('side_edit:right', 5), ('side_edit:bottom', 5), ('side_edit:top', 5), ('side_edit:back', 3), ('side_edit:front', 3)):
+                    ('valdtype:int64', 10), ('valdtype:bool', 10), ('geo:int', 10), ('geo:jitter', 8), ('geo:nano', 5), ('geo:thinend', 10), ('geo:offset', 8), ('no_precalc_round1', 80), ('no_precalc_round2', 40), ('no_precalc_round3', 40), ('side_edit:left', 5), ('side_edit:right', 5), ('side_edit:bottom', 5), ('side_edit:top', 5), ('side_edit:back', 3), ('side_edit:front', 3)):
         if agg['cov'].get(k, 0) < need:
             out.append('%s < %d' % (k, need))
     return out
